@@ -272,7 +272,7 @@ func parseShort(s string, specs []*OptionSpec) ([]*Option, bool) {
 
 func findShort(r rune, specs []*OptionSpec) *OptionSpec {
 	for _, opt := range specs {
-		if r == opt.Short {
+		if opt.Short != 0 && r == opt.Short {
 			return opt
 		}
 	}
